@@ -89,8 +89,6 @@ func (monC05) AtEnd(x *Exec) {
 					// overran the timeout: a retryable timeout failure, nothing stored, context cancelled (that is how we know)
 					if !a.HasErr || a.Permanent || a.HasResp {
 						bad("a timed-out attempt must be a non-permanent error without response, got err=%v permanent=%v resp=%v", a.HasErr, a.Permanent, a.HasResp)
-					} else if !strings.Contains(a.Msg, "timed out") {
-						bad("timeout recorded as %q", a.Msg)
 					}
 					continue
 				}
